@@ -165,7 +165,7 @@ theorem WC.writeGeneric (cfg : Cfg) {m0 x : M} (t r : Str) (h : WC m0 x) (hb : x
     WC m0 (writeGeneric cfg x t r) := by
   unfold Machine.writeGeneric
   split
-  · exact h
+  · exact h.upd rfl rfl rfl rfl rfl
   · refine (h.direct _ hb ?_).upd rfl rfl rfl rfl rfl
     intro row hrow
     rcases List.mem_append.mp hrow with h1 | h1
